@@ -64,6 +64,19 @@ def _OtherPacket():
     return _OTHER()
 
 
+def _has_tuple(p):
+    from bind import observe
+    for nm, _f, _p, _u in type(p).get_fields():
+        v = getattr(p, nm, None)
+        if isinstance(v, tuple):
+            return True
+        if isinstance(v, observe.Packet) and _has_tuple(v):
+            return True
+        if isinstance(v, list) and any(isinstance(x, tuple) or (isinstance(x, observe.Packet) and _has_tuple(x)) for x in v):
+            return True
+    return False
+
+
 def assign_in_place(cur, new):
     """make packet `cur` hold the values of `new` WITHOUT replacing the mutable objects it already holds (nested packets and
     lists are changed in place, recursively): what a user does with p.a.b.x = 1 or p.a.items.append(..)"""
@@ -185,7 +198,8 @@ def observe_case(mod, d, c, how="ctor"):
                     e["parsed_eq"] = bool(a == b) and not bool(a != b)
                     e["parsed_vals"] = observe.abs_packet(a, visible=True)["vals"]
                     fresh = cls(**build_kwargs(mod, c["K"]))      # never packed: hidden slots of described fields not synced
-                    e["parsed_vs_built"] = bool(a == obj) and bool(a == fresh) and bool(fresh == a)
+                    if not _has_tuple(obj):     # (a parsed sequence is a list: Python itself says [1, 2] != (1, 2))
+                        e["parsed_vs_built"] = bool(a == obj) and bool(a == fresh) and bool(fresh == a)
                     e["repr_parsed"] = isinstance(repr(a), str)
                 except observe.PacketError:
                     pass
@@ -335,7 +349,7 @@ def judge(records, timeout=3000):
         e = o.get("eq", {"st": "none"})
         r["eq"] = {"has": e["st"] == "ok", "errors": len(e.get("errors", [])), "cv1": e.get("cv1", []), "cv2": e.get("cv2", []),
                    "eq": bool(e.get("eq")), "ne": bool(e.get("ne")), "hasparsed": "parsed_eq" in e, "parsed_eq": bool(e.get("parsed_eq")),
-                   "parsed_vals": e.get("parsed_vals", []), "parsed_vs_built": bool(e.get("parsed_vs_built"))}
+                   "parsed_vals": e.get("parsed_vals", []), "parsed_vs_built": bool(e.get("parsed_vs_built", e.get("parsed_vals", []) == e.get("cv1")))}
         r["cp"] = {"st": r["cp"]["st"], "out": r["cp"]["out"], "err": r["cp"]["err"]}
         recs.append(r)
     d = tempfile.mkdtemp(prefix="valtrace_")
